@@ -108,6 +108,17 @@ CLAIMED = {
         "note": _NOTE + " Protocols, callables, TypeVars and the documented leniencies (bare generics, fixed tuple accepting a variadic tuple) are outside the claim.",
         "technique": "CrossHair symbolic execution + z3; symbolic preorder as environment",
     },
+    "C02": {
+        "design_ref": "DESIGN.md section 5 C02",
+        "text": ("Kernel claim on constraint application. Constraints come from the real factories (_constraint_from_compare_op, "
+                 "_constraint_from_predicate_provider on a stub self, _isinstance_impl, _len_impl), are inverted / and-ed / or-ed by the "
+                 "real algebra and applied by the real constrain_value to 26 value shapes; for every object payload, literal in the "
+                 "type and compared constant the solver shows (1) an object of the declared type that takes the branch stays in the "
+                 "narrowed type, (2) the narrowed type holds nothing outside the declared and the tested type, (3) always-true / "
+                 "always-false boolability verdicts are right for every object of the type."),
+        "note": _NOTE + " How the visitor selects the constraint for a syntax tree, TypeIs/TypeGuard and match patterns are outside the claim.",
+        "technique": "CrossHair symbolic execution + z3; Python's own evaluation of the condition on the symbolic object is the oracle",
+    },
 }
 
 _PENDING = "harness not landed yet in this commit (build in progress; see DESIGN.md section 9)"
